@@ -111,6 +111,51 @@ def canonical_part(R, rng, quick):
         R.extra.setdefault('exhaustive_subspaces', []).append('every (n, m) with 0 <= n <= m <= 1023 as root label length / key width, uniform-0, uniform-1 and mixed contents')
     else:
         R.extra.setdefault('exhaustive_subspaces', []).append('every (n, m) with 0 <= n <= m <= 48; for sampled larger m the bands around the three tie-break boundaries')
+    # mirrored subtrees whose values are EQUAL as Python objects but encode differently (Address.__eq__ ignores the anycast prefix; a user class with a loose __eq__):
+    # the canonical tree is decided by the encodings, never by == of the values
+    if R.shard == 0:
+        from pytoniq_core.boc.address import Address
+        from pytoniq_core.boc.hashmap.hashmap import HashMap
+        B_ = bridge.lib()
+        for w in (2, 3, 8, 16):
+            for depth in (1, 7):
+                plain = Address((0, rng.randbytes(32)))
+                anyc = Address((plain.wc, plain.hash_part))
+                anyc.set_anycast(depth, rng.getrandbits(depth) | 1)
+                low = rng.getrandbits(w - 1)
+                for first, second in ((anyc, plain), (plain, anyc)):
+                    pairs = {low: first, low | (1 << (w - 1)): second}        # the same suffix under the root's left and right child
+                    enc = lambda a: B_.Builder().store_address(a).end_cell().bits.to01()
+                    want = dictref.encode({u(k, w): (enc(v), []) for k, v in pairs.items()}, w)
+                    hm = HashMap(w).with_address_values()
+                    for k, v in pairs.items():
+                        hm.set_int_key(k, v)
+                    st, cell = mon.call(hm.serialize)
+                    R.counters['oracle_evaluations'] += 1
+                    R.count('equal_but_differently_encoded_values')
+                    R.check(st == 'ok' and cell.hash == want.hash, 'canonical-hash-differs-values-equal-but-encoded-differently',
+                            f'two mirrored entries whose Address values compare equal but encode differently (anycast depth {depth}): the dictionary is not the canonical tree of the encodings',
+                            {'width': w, 'anycast_depth': depth, 'anycast_first': first is anyc})
+
+        class Loose:
+            def __init__(self, n):
+                self.n = n
+
+            def __eq__(self, other):
+                return True
+
+            def __hash__(self):
+                return 1
+        for w in (2, 5):
+            pairs = {1: Loose(3), 1 | (1 << (w - 1)): Loose(200)}
+            want = dictref.encode({u(k, w): (u(v.n, 8), []) for k, v in pairs.items()}, w)
+            hm = HashMap(w, value_serializer=lambda src, dest: dest.store_uint(src.n, 8))
+            for k, v in pairs.items():
+                hm.set_int_key(k, v)
+            st, cell = mon.call(hm.serialize)
+            R.count('equal_but_differently_encoded_values')
+            R.check(st == 'ok' and cell.hash == want.hash, 'canonical-hash-differs-values-equal-but-encoded-differently',
+                    'two mirrored entries whose values compare equal (a user class) but encode differently: the dictionary is not the canonical tree of the encodings', {'width': w})
     # random maps: whole-tree canonical hash incl. inner labels where m shrinks along the path
     vks = [v for v in c09.value_kinds()]
     M = c09.DictMonitor(R)
